@@ -115,9 +115,9 @@ def check(ctx):
     if sacrificed:
         os.symlink(sacrifice, os.path.join(W, "lnk_sac"))
     rel_pool = [".", "..", "real", "sub", "lnk_etc", "lnk_real", "lnk_up", "lnk_usr", "lnk_root", "lnk2", "missing",
-                "lnk_via", "lnk_via2", "lnk_via3", "lnk_out", "lnk_via4", "newdb", "etc", "etcetera", "usr", "ssl", "bin", "local"]
+                "lnk_via", "lnk_via2", "lnk_via3", "lnk_out", "lnk_via4", "newdb", "..data", "...", "etc", "etcetera", "usr", "ssl", "bin", "local"]
     abs_pool = ["etc", "etcetera", "usr", "usrlocal", "local", "root", "rootfs", "bin", "binx", "sbin", "boot",
-                "bootx", "tmp", "var", "..", ".", "missing", "ssl", "passwd", "share", "lib"]
+                "bootx", "tmp", "var", "..", ".", "missing", "ssl", "passwd", "share", "lib", "..data", "...", "..x", ".hidden"]
     maxlen = 4 if thorough else 3
     spelled = []
     for n in range(1, maxlen + 1):
